@@ -40,7 +40,7 @@ echo "$res demo without change rc=$d0 (want 0), with change rc=$d1 (want !=0), p
 # run the checks against the tree with the change applied (scratch worktree, so that concurrent work in /repo is
 # not disturbed; identical to `git -C /repo apply` + run + `git -C /repo checkout -- .`)
 for p in "$@"; do
-  out=$(VERIF_REPO=$WT $V/bin/vcheck $p -tier quick ${BUDGET:+-budget $BUDGET} 2>&1); rc=$?
+  out=$(VERIF_REPO=$WT VERIF_EVIDENCE_DIR=/var/tmp/mutev $V/bin/vcheck $p -tier quick ${BUDGET:+-budget $BUDGET} 2>&1); rc=$?
   echo "$res check $p rc=$rc $(echo "$out" | grep -c '^VIOLATION') violation(s): $(echo "$out" | grep '^VIOLATION' | head -2 | sed 's/.*replays\///' | tr '\n' ' ')"
   [ $rc -eq 2 ] && echo "$out" | tail -3
 done
